@@ -27,6 +27,7 @@ import sys
 
 HEADLINE = ("TwistedProps.C15.stream_accounting / connectionLost_at_most_once / no_data_after_connectionLost / "
             "close_never_forgotten / done_from_doWrite_is_connectionLost / "
+            "singleBit_read_dispatch / singleBit_write_dispatch / singleBit_done_from_doWrite_is_connectionLost / "
             "loseConnection_clean_close / loseConnection_delivers_written / halfClose_clean_close / abortConnection_close / "
             "closeFromDataReceived_clean_close_partial")
 RULE = ("sim: schedules over {write, writeSequence, loseConnection, loseWriteConnection, abortConnection, pause, resume, "
@@ -35,7 +36,16 @@ RULE = ("sim: schedules over {write, writeSequence, loseConnection, loseWriteCon
         "request/response templates (the peer writes requests; the closer replies from dataReceived at byte thresholds and calls "
         "loseConnection / loseWriteConnection / abortConnection RE-ENTRANTLY from dataReceived when the last request byte "
         "arrives — directed variants report IN|OUT in one event while a reply is still pending), protocol scripts for "
-        "dataReceived / readConnectionLost / writeConnectionLost (any transport call), and undisciplined soups; real: loopback connections on 4 reactors in subprocesses, closer = client|server, "
+        "dataReceived / readConnectionLost / writeConnectionLost (any transport call), and undisciplined soups; "
+        "30% of the sim schedules are played through the REAL single-condition dispatch of the select reactor "
+        "(SelectReactor._doReadOrWrite) or the asyncio reactor (AsyncioSelectorReactor._readOrWrite): every report split "
+        "into IN then OUT, no HUP bit, single-bit drain `S`; every writeSequence call passes its chunks as a list / one-shot "
+        "generator / tuple / list iterator / deque in rotation (start drawn per protocol); the fake kernel answers a send() "
+        "that cannot take anything with EWOULDBLOCK or ENOBUFS and interrupts send() with EINTR (flavour drawn per case); "
+        "oracle-only classes: protocol callbacks that RAISE (readConnectionLost / writeConnectionLost / dataReceived; 70% an "
+        "exception outside the Exception hierarchy) — connectionLost still exactly once per side after the drain; megabyte "
+        "streams (1 MiB … 4 MiB, at and around the MiB marks) through the default SEND_LIMIT / bufferSize with partial "
+        "sends, judged on digests; real: loopback connections on 4 reactors in subprocesses, closer = client|server, "
         "close kind lose|half|abort, sizes 0..256 KiB (4 MiB thorough), small socket buffers, reader pauses, plus "
         "request/response runs closing from dataReceived; "
         "distinct = (mode, template/reactor, close kind, half-closeable flags, outcome reasons, size class)")
@@ -57,9 +67,16 @@ ASSUMES = [
     "last dataReceived reaction = writes then loseConnection, armed for exactly that total); that a request/response "
     "pre-phase establishes RR is NOT proved (tested: the rr templates; the oracle reads the expected bytes/reasons off "
     "the case).  half-close / abort issued from dataReceived: safety theorems + tie + oracle only",
-    "protocol callbacks do not raise; the select/asyncio dispatch (one doRead or one doWrite per call) is the "
-    "single-bit special case of the modelled poll/epoll dispatch and is tied by the real-socket runs only; "
-    "no TLS, no producers (C14)",
+    "model and theorems: protocol callbacks do not raise (raising callbacks are an oracle-only sim class: the dispatch's "
+    "except clauses, log.callWithLogger around it emulated by the harness); the select/asyncio dispatch (one doRead or "
+    "one doWrite per call) is the single-bit special case of the modelled poll/epoll dispatch (singleBit_* theorems) "
+    "and is tied step by step on the fake kernel AND by the real-socket runs; the doSelect/doPoll/asyncio event loops "
+    "themselves (which fd is reported when) only by the real-socket runs; termination of the single-bit drain is "
+    "checked per case, not proved; no TLS, no producers (C14)",
+    "the container passed to writeSequence and the errno of a send() that takes nothing (EWOULDBLOCK / ENOBUFS / a "
+    "preceding EINTR) are invisible to the model: the same model line must fit all of them",
+    "megabyte sim cases are oracle-only (the List-based model is quadratic in the stream length; the real-socket "
+    "megabyte runs of the thorough tier stay model-compared through `fair`)",
 ]
 TRUSTED = ["harness fake kernel/poller in corr/C15.py (Python twin of kSend/kRecv/kShutWr/kClose/hupCond of the model)",
            "CPython socket module + Linux loopback TCP for the real-socket runs"]
@@ -81,7 +98,9 @@ MANIFEST = {
             "exactly the concatenation of the schedule's write()/writeSequence() arguments, ConnectionAborted on the aborting "
             "side and exactly one reason on the other after abortConnection (reader holds a prefix). The same conclusions "
             "hold in any quiescent state a disciplined schedule reaches. Model tied to the code by step-by-step "
-            "differential runs on a fake kernel and by real loopback runs on four reactors in subprocesses.",
+            "differential runs on a fake kernel (poll-like dispatch, and the select / asyncio single-condition dispatch — "
+            "singleBit_* theorems: it is the single-bit case of the modelled one, a doWrite CONNECTION_DONE is connectionLost "
+            "there too) and by real loopback runs on four reactors in subprocesses.",
     "note": "safety (all protocol behaviours) and liveness/clean-close (one-closer discipline) proved in Lean; close from "
             "dataReceived proved from the closing situation on (pre-phase assumed, `_partial`); ASSUMED (tested by the real-socket runs, not "
             "proved): Linux TCP and the four doIteration loops refine the model's kernel/poller; trusts Lean kernel, the "
@@ -97,13 +116,36 @@ REACTORS = ["select", "poll", "epoll", "asyncio"]
 # =========================================================================================
 # shared helpers
 
+_BASE251 = bytes(range(251))
+
+
+_pattern_cache = {}
+
+
 def pattern(seed, n):
-    return bytes((seed + i) % 251 for i in range(n))
+    """bytes (seed + i) mod 251, i < n — built by repetition (megabytes in milliseconds); big ones are remembered
+    (the same op token is decoded by the run and by the oracle)"""
+    r = seed % 251
+    if n >= 65536 and (r, n) in _pattern_cache:
+        return _pattern_cache[(r, n)]
+    rot = _BASE251[r:] + _BASE251[:r]
+    b = (rot * (n // 251 + 1))[:n]
+    if n >= 65536:
+        if len(_pattern_cache) > 6:
+            _pattern_cache.clear()
+        _pattern_cache[(r, n)] = b
+    return b
 
 
 def digest(b):
     # length + (the bytes as a base-256 number) mod a prime: position sensitive, and linear-time in C
     return f"{len(b)}.{int.from_bytes(bytes(b), 'big') % 4294967291}"
+
+
+def fdigest(b):
+    """length + SHA-1 prefix: the digest of the oracle-only megabyte sim cases (no Lean twin needed)"""
+    import hashlib
+    return f"{len(b)}.{hashlib.sha1(bytes(b)).hexdigest()[:16]}"
 
 
 def _hex(b):
@@ -137,8 +179,37 @@ def op_bytes(tok):
     return None
 
 
-def apply_op(transport, tok, written):
-    """perform one application op token on a real transport"""
+SEQ_KINDS = 5
+
+
+class ScriptedCancel(BaseException):
+    """what a protocol callback raises for the op `!B`: an exception OUTSIDE the Exception hierarchy (like
+    asyncio.CancelledError / GeneratorExit)"""
+
+
+class ScriptedError(Exception):
+    """what a protocol callback raises for the op `!E`"""
+
+
+def as_iovec(ds, kind):
+    """the chunks of one writeSequence call as one of the iterables the API accepts (`Iterable[bytes]`): a list, a
+    one-shot generator, a tuple, a one-shot list iterator, a deque — same bytes, whatever the container"""
+    kind %= SEQ_KINDS
+    if kind == 1:
+        return (x for x in list(ds))
+    if kind == 2:
+        return tuple(ds)
+    if kind == 3:
+        return iter(list(ds))
+    if kind == 4:
+        import collections
+        return collections.deque(ds)
+    return list(ds)
+
+
+def apply_op(transport, tok, written, proto=None):
+    """perform one application op token on a real transport.  `proto` (the protocol that owns `written`) carries the
+    rotation of writeSequence argument kinds: call number n of a protocol passes kind (seq + n) mod SEQ_KINDS."""
     if tok[0] in "wg":
         d = op_bytes(tok)[0]
         written.append(d)
@@ -146,7 +217,11 @@ def apply_op(transport, tok, written):
     elif tok[0] == "q":
         ds = op_bytes(tok)
         written.extend(ds)
-        transport.writeSequence(ds)
+        kind = 0
+        if proto is not None:
+            kind = proto.seq
+            proto.seq += 1
+        transport.writeSequence(as_iovec(ds, kind))
     elif tok == "L":
         transport.loseConnection()
     elif tok == "H":
@@ -157,6 +232,10 @@ def apply_op(transport, tok, written):
         transport.pauseProducing()
     elif tok == "R":
         transport.resumeProducing()
+    elif tok == "!B":
+        raise ScriptedCancel("scripted")
+    elif tok == "!E":
+        raise ScriptedError("scripted")
     else:
         raise ValueError(tok)
 
@@ -178,6 +257,7 @@ def make_protocols():
             self.onrl = list(cfg.get("onrl", []))
             self.ondata = [[int(t), list(ops)] for t, ops in cfg.get("ondata", [])]
             self.onwl = list(cfg.get("onwl", []))
+            self.seq = int(cfg.get("seq", 1))      # first writeSequence of a protocol: a generator, unless told otherwise
             self.on_lost = None
             self.on_data = None
 
@@ -190,7 +270,7 @@ def make_protocols():
             while self.ondata and len(self.received) >= self.ondata[0][0]:
                 _, ops = self.ondata.pop(0)
                 for tok in ops:
-                    apply_op(self.transport, tok, self.written)
+                    apply_op(self.transport, tok, self.written, self)
             if self.on_data:
                 self.on_data(self)
 
@@ -206,14 +286,14 @@ def make_protocols():
                 self.late += 1
             self.readLost += 1
             for tok in self.onrl:
-                apply_op(self.transport, tok, self.written)
+                apply_op(self.transport, tok, self.written, self)
 
         def writeConnectionLost(self):
             if self.lost:
                 self.late += 1
             self.writeLost += 1
             for tok in self.onwl:
-                apply_op(self.transport, tok, self.written)
+                apply_op(self.transport, tok, self.written, self)
 
     return Plain, Half
 
@@ -224,7 +304,12 @@ def make_protocols():
 class KSock:
     """kernel side of one endpoint — twin of `Sock` + kSend/kRecv/kShutWr/kClose in Tcp.lean"""
 
-    def __init__(self, cap):
+    def __init__(self, cap, eno=0):
+        # eno: which errno a send() that cannot take anything answers — the kernel's choice, invisible to the model
+        # (its `some 0`): 0 = always EWOULDBLOCK; 1 = ENOBUFS and EWOULDBLOCK in turn; 2 = the same and every third
+        # send() call is first interrupted (EINTR) before anything happened
+        self.eno = eno
+        self.nsend = self.nzero = 0
         self.inq = bytearray()
         self.inFin = self.inRst = self.shutWr = self.closed = False
         self.cap = cap
@@ -262,6 +347,9 @@ class KSock:
 
     def send(self, data):
         data = bytes(data)
+        self.nsend += 1
+        if self.eno >= 2 and self.nsend % 3 == 0:
+            raise InterruptedError(errno.EINTR, "interrupted system call")
         if self.inRst or self.shutWr:
             raise OSError(errno.EPIPE, "broken pipe")
         if not data:
@@ -274,6 +362,9 @@ class KSock:
             self.peer.inq += data[:l]
         self.sent += l
         if l == 0:
+            self.nzero += 1
+            if self.eno and self.nzero % 2:
+                raise OSError(errno.ENOBUFS, "no buffer space available")
             raise OSError(errno.EWOULDBLOCK, "would block")
         return l
 
@@ -319,16 +410,56 @@ def _sim_classes():
         def callLater(self, delay, f, *a, **kw):
             self.calls.append((f, a, kw))
 
+    from twisted.logger import Logger
+    SimReactor._log = Logger()          # asyncioreactor._readOrWrite logs through self._log
     return SimReactor
+
+
+def _dispatch1(style):
+    """the REAL single-condition dispatch of the select / asyncio reactor as a function (reactor, selectable, isRead)"""
+    if style == "select":
+        from twisted.internet.selectreactor import SelectReactor
+
+        def dispatch(r, t, read):
+            if t.fileno() == -1:
+                # a registered selectable whose descriptor is gone (misuse: loseWriteConnection after connectionLost):
+                # select() itself refuses it (ValueError), doSelect preens, _onePreen disconnects it — no doRead/doWrite
+                return r._disconnectSelectable(t, ValueError("file descriptor cannot be a negative integer (-1)"), False)
+            return SelectReactor._doReadOrWrite(r, t, "doRead" if read else "doWrite")
+        return dispatch
+    if style == "asyncio":
+        from twisted.internet.asyncioreactor import AsyncioSelectorReactor
+        return lambda r, t, read: AsyncioSelectorReactor._readOrWrite(r, t, read)
+    raise ValueError(style)
+
+
+_quiet = [False]
+
+
+def _quiet_log():
+    """the real dispatch code reports what it catches through log.err(): without an observer Twisted prints every
+    such failure to stderr — thousands of tracebacks for the soups and the raising callbacks.  One no-op observer."""
+    if not _quiet[0]:
+        _quiet[0] = True
+        try:
+            from twisted.logger import globalLogBeginner
+            globalLogBeginner.beginLoggingTo([lambda event: None], redirectStandardIO=False, discardBuffer=True)
+        except Exception:
+            pass
 
 
 class Sim:
     def __init__(self, case):
         from twisted.internet import tcp
+        _quiet_log()
         Plain, Half = make_protocols()
         sl, rm, cap = case["params"]
+        self.swallow = case.get("tpl") == "raise"     # see `guarded`
+        self.escaped = 0
+        self.disp = case.get("disp", "poll")
+        self.dispatch1 = _dispatch1(self.disp) if self.disp != "poll" else None
         self.reactor = _sim_classes()()
-        self.k = {"A": KSock(cap), "B": KSock(cap)}
+        self.k = {"A": KSock(cap, case.get("eno", 0)), "B": KSock(cap, case.get("eno", 0))}
         self.k["A"].peer, self.k["B"].peer = self.k["B"], self.k["A"]
         self.p, self.t = {}, {}
         for s in "AB":
@@ -343,6 +474,14 @@ class Sim:
     # -- twin of `io` masking in Tcp.lean (the poller), dispatch is the real _doReadOrWrite
     def io(self, s, bits, nr, nw):
         t, k, r = self.t[s], self.k[s], self.reactor
+        if self.dispatch1 is not None:
+            # select / asyncio: ONE condition per report, no HUP bit; a report of something not registered is not made
+            if bits not in ("i", "o", "-"):
+                raise ValueError("single-bit dispatch: " + bits)
+            if (bits == "i" and t in r._reads) or (bits == "o" and t in r._writes):
+                k.nr, k.nw = nr, nw
+                self.guarded(self.dispatch1, r, t, bits == "i")
+            return
         reading, writing = t in r._reads, t in r._writes
         hupC = k.inRst or (k.inFin and k.shutWr)
         hupE = ("h" in bits) and hupC and (reading or writing)
@@ -352,7 +491,20 @@ class Sim:
             return
         k.nr, k.nw = nr, nw
         ev = (r._POLL_IN if inE else 0) | (r._POLL_OUT if outE else 0) | (r._POLL_DISCONNECTED if hupE else 0)
-        r._doReadOrWrite(t, t, ev)
+        self.guarded(r._doReadOrWrite, t, t, ev)
+
+    def guarded(self, f, *a):
+        """every reactor calls its dispatch through log.callWithLogger, which logs and swallows whatever escapes it
+        (KeyboardInterrupt excepted).  Emulated only for the cases whose protocols raise on purpose — anywhere else
+        an exception escaping the dispatch is a failure of the run."""
+        if not self.swallow:
+            return f(*a)
+        try:
+            return f(*a)
+        except KeyboardInterrupt:
+            raise
+        except BaseException:
+            self.escaped += 1
 
     def timer(self, s):
         mine = [c for c in self.reactor.calls if getattr(c[0], "__self__", None) is self.t[s]]
@@ -381,12 +533,34 @@ class Sim:
             self.timer("A")
             self.timer("B")
 
+    def drain1(self):
+        """twin of `runSel` in Drv/C15.lean: single-bit rounds until quiescent"""
+        for _ in range(500):
+            if self.quiescent():
+                return
+            for s in "AB":
+                self.io1(s, "i")
+                self.io1(s, "o")
+            self.timer("A")
+            self.timer("B")
+
+    def io1(self, s, bit):
+        t, k, r = self.t[s], self.k[s], self.reactor
+        if (bit == "i" and t in r._reads) or (bit == "o" and t in r._writes):
+            k.nr, k.nw = BIG, BIG
+            if self.dispatch1 is not None:
+                self.guarded(self.dispatch1, r, t, bit == "i")
+            else:
+                self.guarded(r._doReadOrWrite, t, t, r._POLL_IN if bit == "i" else r._POLL_OUT)
+
     def event(self, tok):
         if tok == "D":
             self.drain()
+        elif tok == "S":
+            self.drain1()
         elif tok[0] == "a":
             s = tok[1]
-            apply_op(self.t[s], tok[3:], self.p[s].written)
+            apply_op(self.t[s], tok[3:], self.p[s].written, self.p[s])
         elif tok[0] == "t":
             self.timer(tok[1])
         elif tok[0] == "i":
@@ -416,8 +590,14 @@ def run_sim(case):
         sim.event(ev)
         toks.append(sim.token())
     pa, pb = sim.p["A"], sim.p["B"]
+    wa, wb = b"".join(pa.written), b"".join(pb.written)
+    if case.get("big"):
+        # megabytes: digests instead of the bytes, the prefix relation evaluated here
+        pfx = int(wa.startswith(bytes(pb.received)) and wb.startswith(bytes(pa.received)))
+        return (";".join(toks) + f" A=#{fdigest(pa.received)} B=#{fdigest(pb.received)}"
+                + f" # late={pa.late + pb.late} wA=#{fdigest(wa)} wB=#{fdigest(wb)} q={int(sim.quiescent())} pfx={pfx}")
     line = ";".join(toks) + f" A={_hex(pa.received)} B={_hex(pb.received)}"
-    extra = (f" late={pa.late + pb.late} wA={_hex(b''.join(pa.written))} wB={_hex(b''.join(pb.written))}"
+    extra = (f" late={pa.late + pb.late} wA={_hex(wa)} wB={_hex(wb)}"
              f" q={int(sim.quiescent())}")
     return line + " #" + extra
 
@@ -522,7 +702,7 @@ def worker_main(name):
                         reactor.callLater(st[1], go)
                         return
                     if not actor.lost:
-                        apply_op(actor.transport, st[1], actor.written)
+                        apply_op(actor.transport, st[1], actor.written, actor)
             go()
 
         def lost(p):
@@ -646,16 +826,19 @@ _hangs = [0]
 def run_real(case):
     if _hangs[0] >= 3:       # a systematic hang: do not spend the whole budget waiting; same verdict as the first ones
         return "!status timeout (not run: three earlier cases already hung) {}"
-    wall = case.get("timeout", 10) + 10
+    # the machine may be heavily loaded (a fresh worker alone can need many seconds to import twisted): the worker's
+    # own time limit decides "timeout"; the wall limit around it only detects a dead / wedged worker and is generous
+    wall = case.get("timeout", 10) + 60
     res = _ask(case["reactor"], case, wall)
-    if res.get("status") not in ("ok", "timeout"):   # worker trouble (not a verdict): one retry in a fresh worker
+    if res.get("status") not in ("ok", "timeout"):   # worker trouble (not a verdict): retry in a fresh worker
         res = _ask(case["reactor"], case, wall)
-    if res.get("status") == "timeout":
-        # a loaded machine is not a hang: confirm once with six times the time limit before judging it
+    if res.get("status") != "ok":
+        # a loaded machine is not a hang, a slow start is not a dead worker: confirm with six times the time limit
+        # before judging it
         slow = dict(case, timeout=case.get("timeout", 10) * 6)
-        res = _ask(case["reactor"], slow, slow["timeout"] + 10)
+        res = _ask(case["reactor"], slow, slow["timeout"] + 60)
         if res.get("status") not in ("ok", "timeout"):
-            res = _ask(case["reactor"], slow, slow["timeout"] + 10)
+            res = _ask(case["reactor"], slow, slow["timeout"] + 60)
     if res.get("status") == "timeout":
         _hangs[0] += 1
     if res.get("status") != "ok" or "A" not in res or "B" not in res:
@@ -700,6 +883,9 @@ def _ondata_bytes(cfg):
 
 def model_line(c):
     if c["mode"] == "sim":
+        if c.get("big") or c.get("tpl") == "raise":
+            return None       # megabyte streams (the List-based model is quadratic there) and raising protocol
+                              # callbacks (not modelled): oracle-only
         return "sim " + ",".join(map(str, c["params"])) + f" {_cfg_tok(c['cfg']['A'])} {_cfg_tok(c['cfg']['B'])} " \
                + " ".join(c["events"])
     # real: A = closer.  Every delay ends a phase (the model then runs fair rounds to quiescence).  The kernel
@@ -762,12 +948,22 @@ def oracle(c, out):
         ta, tb = last.split("|")
         la, lb = ta.split("/")[4].replace("-", ""), tb.split("/")[4].replace("-", "")
         kv = dict(x.split("=", 1) for x in main.split(" ")[1:])
-        ra, rb, wa, wb = _unhex(kv["A"]), _unhex(kv["B"]), _unhex(extra["wA"]), _unhex(extra["wB"])
+        big = kv["A"].startswith("#")
         for who, l in (("A", la), ("B", lb)):
             if len(l) > 1:
                 return {"key": "connectionLost-twice", "detail": f"{who} connectionLost reasons {l}"}
-        if not wa.startswith(rb) or not wb.startswith(ra):
-            return {"key": "not-a-prefix", "detail": f"A wrote {wa.hex()} B got {rb.hex()}; B wrote {wb.hex()} A got {ra.hex()}"}
+        if big:
+            da, db = kv["A"][1:], kv["B"][1:]              # digests of what A / B received
+            if extra.get("pfx") != "1":
+                return {"key": "not-a-prefix", "detail": f"A wrote {extra['wA']} B got #{db}; B wrote {extra['wB']} A got #{da}"}
+            show = dg = fdigest
+        else:
+            ra, rb, wa, wb = _unhex(kv["A"]), _unhex(kv["B"]), _unhex(extra["wA"]), _unhex(extra["wB"])
+            dg = digest
+            da, db = digest(ra), digest(rb)
+            if not wa.startswith(rb) or not wb.startswith(ra):
+                return {"key": "not-a-prefix", "detail": f"A wrote {wa.hex()} B got {rb.hex()}; B wrote {wb.hex()} A got {ra.hex()}"}
+            show = lambda b: bytes(b).hex()
         exp = c.get("expect", "any")
         halfkind = c.get("tpl") == "half" or (c.get("tpl") == "rr" and c.get("kind") == "H")
         if exp == "orderly":
@@ -784,9 +980,14 @@ def oracle(c, out):
                 want[s_] += _ondata_bytes(c["cfg"][s_])
             if halfkind and c["cfg"][R]["half"]:
                 want[R] += _ops_bytes(c["cfg"][R].get("onrl", []))
-            if rb != want["A"] or ra != want["B"]:
-                return {"key": "bytes-missing", "detail": f"A should write {want['A'].hex()} B got {rb.hex()}; "
-                                                          f"B should write {want['B'].hex()} A got {ra.hex()}"}
+            if db != dg(want["A"]) or da != dg(want["B"]):
+                return {"key": "bytes-missing", "detail": f"A should write {show(want['A'])} B got {db if big else rb.hex()}; "
+                                                          f"B should write {show(want['B'])} A got {da if big else ra.hex()}"}
+        elif exp == "once":
+            # a protocol callback raised: whatever the reasons, after the final drain each side was told exactly once
+            if len(la) != 1 or len(lb) != 1:
+                return {"key": "connectionLost-count", "detail": f"connectionLost A={la or '-'} B={lb or '-'} after the "
+                                                                 f"final drain (a protocol callback raised; expected one call each)"}
         elif exp == "abort":
             w = c["closer"]
             lw, lr = (la, lb) if w == "A" else (lb, la)
@@ -834,13 +1035,14 @@ def tag(c, out):
         main = out.split(" ")[0]
         last = main.split(";")[-1] if ";" in main or "|" in main else "?"
         reasons = "/".join(t.split("/")[4] for t in last.split("|")) if "|" in last else "?"
-        tpl = c.get('tpl', 'soup') + (c.get("kind", "") if c.get("tpl") == "rr" else "")
+        tpl = c.get('tpl', 'soup') + (c.get("kind", "") if c.get("tpl") == "rr" else "") + c.get("site", "")
+        tpl += ("-big" if c.get("big") else "") + ("-" + c["disp"] if c.get("disp") else "")
         react = "".join(str(int(bool(c["cfg"][s_].get(k)))) for s_ in "AB" for k in ("ondata", "onwl"))
         return (f"sim:{tpl}:{int(c['cfg']['A']['half'])}{int(c['cfg']['B']['half'])}:r{react}:"
                 f"{reasons}:p{min(c['params'])}")
     n = sum(len(b) for st in c["steps"] if st[0] == "o" for b in (op_bytes(st[1]) or []))
     size = 0 if n == 0 else len(str(n))
-    return (f"real{'-rr' if c.get('rr') else ''}:{c['reactor']}:{c['closer']}:{c['kind']}:"
+    return (f"real{'-rr' if c.get('rr') else ''}{'-duplex' if c.get('duplex') else ''}:{c['reactor']}:{c['closer']}:{c['kind']}:"
             f"{int(c['cfgC']['half'])}{int(c['cfgP']['half'])}:s{size}:{out[:1] == '!'}")
 
 
@@ -1047,6 +1249,102 @@ def gen_soup(rng):
     return {"mode": "sim", "tpl": "soup", "expect": "any", "params": _params(rng), "cfg": cfg, "events": ev}
 
 
+def restyle(c, style):
+    """the same schedule for a reactor that reports ONE condition per dispatch (select / asyncio): every readiness
+    report is split into its IN part and its OUT part (two consecutive reports, reads first), HUP bits are dropped,
+    the final drain is made of single-bit rounds"""
+    ev = []
+    for e in c["events"]:
+        if e == "D":
+            ev.append("S")
+        elif e[0] == "i":
+            bits, nr, nw = e[3:].split(":")
+            for b in "io":
+                if b in bits:
+                    ev.append(f"i{e[1]}:{b}:{nr}:{nw}")
+        else:
+            ev.append(e)
+    if not ev:                  # nothing but HUP-only reports: keep one item
+        ev.append("S")
+    return dict(c, disp=style, events=ev)
+
+
+def gen_raise(rng):
+    """a protocol callback RAISES (70%: an exception outside the Exception hierarchy): the reader's readConnectionLost,
+    the half-closer's writeConnectionLost, or the reader's dataReceived at the first byte.  Whatever the callback
+    does, each protocol must have been told connectionLost exactly once when everything has drained.  Oracle-only."""
+    while True:
+        c = gen_template(rng)
+        if c["tpl"] in ("lose", "half"):
+            break
+    W = c["closer"]
+    R = "B" if W == "A" else "A"
+    boom = "!B" if rng.random() < 0.7 else "!E"
+    site = rng.choice(["rl", "rl", "wl", "data"] if c["tpl"] == "half" else ["rl", "rl", "data"])
+    cfg = {k: dict(v) for k, v in c["cfg"].items()}
+    if site == "rl":
+        pre = [_write_tok(rng, [7])] if rng.random() < 0.3 else []
+        cfg[R] = dict(cfg[R], half=True, onrl=pre + [boom] + (["L"] if rng.random() < 0.3 else []))
+    elif site == "wl":
+        cfg[W] = dict(cfg[W], half=True, onrl=cfg[W].get("onrl", ["L"]), onwl=[boom])
+    else:
+        cfg[R] = dict(cfg[R], ondata=[[1, [boom]]])
+    return dict(c, tpl="raise", site=site, expect="once", cfg=cfg)
+
+
+def gen_big(rng):
+    """megabyte streams through the REAL default SEND_LIMIT / bufferSize on the fake kernel (sizes up to the 4 MiB of
+    the statement, at and around 1 MiB / 2 MiB, partial sends): lose / half-close (with a big reply) / abort.
+    Oracle-only (digests)."""
+    tpl = rng.choice(["lose", "lose", "half", "abort"])
+    W = rng.choice("AB")
+    R = "B" if W == "A" else "A"
+    first = [1 << 20, (1 << 20) + 1, 1500000, (2 << 20) + 1, 3000000, 4 << 20]
+    later = [0, 1, 70000, 131072, 131073, 1 << 20]
+    ev, seed = [], rng.randrange(251)
+    for j in range(rng.randint(1, 3)):
+        n = rng.choice(first if j == 0 else later)
+        ev.append(f"a{W}:g{seed}.{n}")
+        seed = (seed + n) % 251
+        for _ in range(rng.randint(0, 4)):
+            ev.append(f"i{W}:o:{BIG}:{rng.choice([BIG, 300000, 131072, 70000, 4096])}")
+            if rng.random() < 0.7:
+                ev.append(f"i{R}:i:{rng.choice([BIG, 65536, 1000])}:{BIG}")
+    cfg = {W: {"half": rng.random() < 0.5, "onrl": ["L"]}, R: {"half": rng.random() < 0.5, "onrl": ["L"]}}
+    expect = "orderly"
+    if tpl == "lose":
+        ev.append(f"a{W}:L")
+    elif tpl == "half":
+        if cfg[R]["half"]:
+            cfg[R]["onrl"] = [f"g{rng.randrange(251)}.{rng.choice([0, 70000, (1 << 20) + 7, 2500000])}", "L"]
+        ev.append(f"a{W}:H")
+    else:
+        ev.append(f"a{W}:X")
+        expect = "abort"
+    for _ in range(rng.randint(0, 4)):
+        s_ = rng.choice("AB")
+        ev.append(f"i{s_}:{rng.choice(['i', 'o', 'io', 'ioh'])}:{rng.choice([BIG, 65536, 1000])}:{rng.choice([BIG, 300000, 70000])}")
+    ev.append("D")
+    for s_ in "AB":
+        if not cfg[s_]["half"]:
+            cfg[s_] = {"half": False}
+    return {"mode": "sim", "tpl": tpl, "big": True, "closer": W, "expect": expect,
+            "params": [131072, 65536, rng.choice([65536, 200000, 1 << 20, 1 << 22])], "cfg": cfg, "events": ev}
+
+
+def sim_case(rng):
+    """one sim case: template / request-response / soup / raising callbacks, 30% of them played through the select or
+    asyncio dispatch; random writeSequence argument kinds and kernel errno flavours (both invisible to the model)"""
+    x = rng.random()
+    c = gen_template(rng) if x < 0.32 else gen_rr(rng) if x < 0.6 else gen_raise(rng) if x < 0.68 else gen_soup(rng)
+    y = rng.random()
+    if y < 0.3:
+        c = restyle(c, "select" if y < 0.15 else "asyncio")
+    c["cfg"] = {k: dict(v, seq=rng.randrange(SEQ_KINDS)) for k, v in c["cfg"].items()}
+    c["eno"] = rng.choice([0, 1, 1, 2])
+    return c
+
+
 def gen_real(rng, reactor, tier, big=False):
     kind = rng.choice(["L", "L", "H", "H", "X"])
     closer = rng.choice(["client", "server"])
@@ -1094,6 +1392,7 @@ def gen_real(rng, reactor, tier, big=False):
             t += rng.randrange(1, max(2, total // 2))
             pauses.append([t, rng.choice([0.001, 0.005, 0.02])])
     b = rng.choice([2048, 4096, 16384])
+    cfgC["seq"], cfgP["seq"] = rng.randrange(SEQ_KINDS), rng.randrange(SEQ_KINDS)
     return {"mode": "real", "reactor": reactor, "closer": closer, "kind": kind, "steps": steps, "cfgC": cfgC, "cfgP": cfgP,
             "pauses": pauses, "bufs": [b, rng.choice([16384, 32768, 65536])], "timeout": 10 if tier == "quick" else 40}
 
@@ -1103,6 +1402,23 @@ def gen_real_rr(rng, reactor, tier):
     closes from dataReceived when the last request byte has arrived"""
     kind = rng.choice(["L", "L", "H", "X"])
     closer = rng.choice(["client", "server"])
+    if rng.random() < 0.3:
+        # duplex pressure: a large request and — from the first chunk on — a large reply, so BOTH ends have more output
+        # pending than the socket buffers hold while input keeps arriving (a reactor must keep polling for input then)
+        n, m = rng.choice([70000, 200000]), rng.choice([70000, 200000])
+        seed, rs = rng.randrange(251), rng.randrange(251)
+        trig = [[1, [f"g{rs}.{m}"]], [n, [kind]]]
+        phalf = rng.random() < 0.6
+        cfgC = {"half": rng.random() < 0.7, "onrl": ["L"], "ondata": trig}
+        cfgP = {"half": phalf, "onrl": ["L"]}
+        if not cfgC["half"]:
+            cfgC = {"half": False, "ondata": trig}
+        if not cfgP["half"]:
+            cfgP = {"half": False}
+        b = rng.choice([2048, 4096])
+        return {"mode": "real", "rr": True, "duplex": True, "reactor": reactor, "closer": closer, "kind": kind,
+                "steps": [["o", f"g{seed}.{n}"]], "cfgC": cfgC, "cfgP": cfgP, "pauses": [], "bufs": [b, 16384],
+                "timeout": 10 if tier == "quick" else 40}
     sizes = [1, 100, 4096, 20000, 70000]
     steps, seed, total = [], rng.randrange(251), 0
     cuts = []
@@ -1187,6 +1503,45 @@ def corpus():
         {"mode": "sim", "tpl": "soup", "expect": "any", "params": [2, 1, 4],
          "cfg": {"A": {"half": False, "ondata": [[1, ["P", "w0102"]], [2, ["R", "L"]]]}, "B": P},
          "events": ["aB:w414243", f"iB:o:{BIG}:{BIG}", f"iA:io:{BIG}:{BIG}", f"iA:io:{BIG}:{BIG}", "aA:R", f"iA:io:{BIG}:{BIG}", "D"]},
+        # --- mutation audit M15 -------------------------------------------------------------------------------
+        # writeSequence given a ONE-SHOT generator / a list iterator / a tuple / a deque (call n of a protocol passes
+        # kind (seq + n) mod 5): the chunks must arrive whatever the container
+        {"mode": "sim", "tpl": "lose", "closer": "A", "expect": "orderly", "params": [4, 3, 5],
+         "cfg": {"A": {"half": False, "seq": 1}, "B": P},
+         "events": ["aA:q0102,-,03", "aA:q04", "aA:q0506,07", "aA:q08,09", "aA:q0a", "iA:o:9:9", "aA:L", "D"]},
+        # a send() that cannot take anything answers ENOBUFS (and is interrupted by EINTR first): nothing is lost,
+        # the close stays clean
+        {"mode": "sim", "tpl": "lose", "closer": "B", "expect": "orderly", "params": [2, 2, 1], "eno": 2,
+         "cfg": {"A": P, "B": P},
+         "events": ["aB:w0102030405", "iB:o:0:0", "iB:o:0:5", "iB:o:0:5", "aB:L", "iB:o:0:0", "D"]},
+        # the select / asyncio dispatch (one condition per report): a half-closeable closer's CONNECTION_DONE comes out
+        # of doWrite — it is connectionLost(ConnectionDone), not readConnectionLost; a half-closeable reader's EOF
+        # comes out of doRead — it is readConnectionLost
+        {"mode": "sim", "tpl": "lose", "closer": "A", "expect": "orderly", "params": [4, 3, 5], "disp": "select",
+         "cfg": {"A": HL, "B": HL}, "events": ["aA:w010203", "iA:o:9:9", "aA:L", "iA:o:9:9", "iB:i:9:9", "iB:i:9:9", "S"]},
+        {"mode": "sim", "tpl": "lose", "closer": "B", "expect": "orderly", "params": [4, 3, 5], "disp": "asyncio",
+         "cfg": {"A": HL, "B": HL}, "events": ["aB:w010203", "aB:L", "iB:o:9:9", "iA:i:9:9", "S"]},
+        {"mode": "sim", "tpl": "half", "closer": "A", "expect": "orderly", "params": [2, 2, 3], "disp": "select",
+         "cfg": {"A": HL, "B": {"half": True, "onrl": ["w0a0b0c", "L"]}},
+         "events": ["aA:q0102,-,03", "aA:H", "iA:o:1:1", "S"]},
+        {"mode": "sim", "tpl": "rr", "kind": "L", "closer": "B", "expect": "orderly", "params": [64, 16, 32], "disp": "asyncio",
+         "cfg": {"A": P, "B": {"half": True, "onrl": ["L"], "ondata": [[1, ["w6f6e65"]], [2, ["w74776f", "L"]]], "onwl": []}},
+         "events": ["aA:w41", f"iA:o:{BIG}:{BIG}", f"iB:i:{BIG}:{BIG}", "aA:w42", f"iA:o:{BIG}:{BIG}", f"iB:i:{BIG}:{BIG}",
+                    f"iB:o:{BIG}:{BIG}", "S"]},
+        # a protocol callback raises an exception OUTSIDE the Exception hierarchy: readConnectionLost of the reader,
+        # writeConnectionLost of the half-closer, dataReceived — connectionLost still comes exactly once to each side
+        {"mode": "sim", "tpl": "raise", "site": "rl", "closer": "A", "expect": "once", "params": [4, 3, 5],
+         "cfg": {"A": P, "B": {"half": True, "onrl": ["!B"]}}, "events": ["aA:w0102", "aA:L", "D"]},
+        {"mode": "sim", "tpl": "raise", "site": "wl", "closer": "A", "expect": "once", "params": [4, 3, 5],
+         "cfg": {"A": {"half": True, "onrl": ["L"], "onwl": ["!B"]}, "B": HL}, "events": ["aA:w0102", "aA:H", "D"]},
+        {"mode": "sim", "tpl": "raise", "site": "data", "closer": "A", "expect": "once", "params": [4, 3, 5], "disp": "select",
+         "cfg": {"A": P, "B": {"half": False, "ondata": [[1, ["!B"]]]}}, "events": ["aA:w0102", "aA:L", "S"]},
+        {"mode": "sim", "tpl": "raise", "site": "data", "closer": "A", "expect": "once", "params": [4, 3, 5], "disp": "asyncio",
+         "cfg": {"A": P, "B": {"half": False, "ondata": [[1, ["!E"]]]}}, "events": ["aA:w0102", "aA:L", "S"]},
+        # megabytes through the default SEND_LIMIT / bufferSize, partial sends (oracle-only, digests)
+        {"mode": "sim", "tpl": "lose", "big": True, "closer": "A", "expect": "orderly", "params": [131072, 65536, 200000],
+         "cfg": {"A": P, "B": P},
+         "events": ["aA:g7.3000000", f"iA:o:{BIG}:70000", f"iB:i:{BIG}:{BIG}", "aA:g3.131073", "aA:L", "D"]},
         {"mode": "real", "rr": True, "reactor": "poll", "closer": "server", "kind": "L",
          "steps": [["o", "g1.1"], ["d", 0.01], ["o", "g2.1"]],
          "cfgC": {"half": True, "onrl": ["L"], "ondata": [[1, ["g7.3"]], [2, ["g9.3", "L"]]]}, "cfgP": P, "pauses": [],
@@ -1195,6 +1550,13 @@ def corpus():
          "steps": [["o", "g1.100"], ["o", "g2.4096"]],
          "cfgC": {"half": True, "onrl": ["L"], "ondata": [[100, ["g7.70000"]], [4196, ["L"]]]}, "cfgP": HL, "pauses": [],
          "bufs": [4096, 16384], "timeout": 10},
+        # duplex pressure (M15 m14): 200000 bytes each way at the same time through 4 KiB / 16 KiB socket buffers
+        {"mode": "real", "rr": True, "duplex": True, "reactor": "epoll", "closer": "server", "kind": "L",
+         "steps": [["o", "g1.200000"]], "cfgC": {"half": False, "ondata": [[1, ["g7.200000"]], [200000, ["L"]]]},
+         "cfgP": P, "pauses": [], "bufs": [4096, 16384], "timeout": 10},
+        {"mode": "real", "rr": True, "duplex": True, "reactor": "poll", "closer": "client", "kind": "L",
+         "steps": [["o", "g1.200000"]], "cfgC": {"half": True, "onrl": ["L"], "ondata": [[1, ["g7.200000"]], [200000, ["L"]]]},
+         "cfgP": HL, "pauses": [], "bufs": [4096, 16384], "timeout": 10},
         {"mode": "real", "reactor": "select", "closer": "client", "kind": "L", "steps": [["o", "g1.70000"], ["o", "L"]],
          "cfgC": P, "cfgP": P, "pauses": [[1000, 0.005]], "bufs": [4096, 4096], "timeout": 10},
         {"mode": "real", "reactor": "epoll", "closer": "server", "kind": "H", "steps": [["o", "g9.200000"], ["o", "H"]],
@@ -1211,8 +1573,9 @@ def generate(rng, tier):
     n_real = 3 if tier == "quick" else 14          # per reactor
     n_rr = 2 if tier == "quick" else 8             # per reactor: close issued from dataReceived
     for i in range(n_sim):
-        x = rng.random()
-        yield gen_template(rng) if x < 0.35 else gen_rr(rng) if x < 0.65 else gen_soup(rng)
+        yield sim_case(rng)
+    for i in range(8 if tier == "quick" else 60):
+        yield gen_big(rng)
     for r in REACTORS:
         for i in range(n_real):
             yield gen_real(rng, r, tier)
@@ -1251,7 +1614,13 @@ def search(rng, tier, disagreeing):
     """property-directed: disciplined templates only (every one carries an exact expectation), many seeds,
     plus real runs of every close kind on every reactor."""
     for _ in range(3000 if tier == "quick" else 30000):
-        yield gen_template(rng) if rng.random() < 0.5 else gen_rr(rng)
+        c = gen_template(rng) if rng.random() < 0.5 else gen_rr(rng)
+        y = rng.random()
+        if y < 0.3:
+            c = restyle(c, "select" if y < 0.15 else "asyncio")
+        c["cfg"] = {k: dict(v, seq=rng.randrange(SEQ_KINDS)) for k, v in c["cfg"].items()}
+        c["eno"] = rng.choice([0, 1, 2])
+        yield c
     for r in REACTORS:
         for _ in range(4):
             yield gen_real(rng, r, tier)
